@@ -58,6 +58,10 @@ LONG_LIST_CASES = [
 ]
 THOROUGH_CASES = [
     (("store", "p", "B", None), "p=A,q=A", "rejected store (pid bound)"),
+    (("store", "p", "A", None), "p=A,q=A", "rejected store (pid bound to the same content)"),
+    (("tag", "p", "A"), "p=A,q=A", "rejected tag (pid bound to the same cid)"),
+    (("tag", "p", "A"), "p=A", "rejected tag (pid is the only reference of the same cid)"),
+    (("tag", "p", "B"), "p=A,q=A", "rejected tag (pid bound, other cid without reference list)"),
     (("tag", "p", "B"), "p=A", "rejected tag (pid bound)"),
     (("store", "p", "A", "badck:sha256"), "q=A", "rejected store (bad checksum), duplicate content"),
     (("store", "p", "A", "ok:sha224"), "empty", "store with non-default checksum algorithm"),
